@@ -70,7 +70,7 @@ func main() {
 		panic("mainnet chain id")
 	}
 	r.Extra("evm_chain_id", config.DefConfig.P2PNode.EVMChainId)
-	nChains := vf.N(24, 360)
+	nChains := vf.N(30, 360)
 	nBlocks := vf.N(60, 90)
 	workers := 8
 	if vf.Thorough() {
